@@ -132,12 +132,21 @@ def merge_states(states: list[State], prefix_len: int, extra_values: list | None
             # a variable assigned on some branches only: reading it on the others is a NameError in CPython
             # (path ends, A2) -> over-approximate by an arbitrary value of the same shape
             proto = present[0]
+            if isinstance(proto, CellRef):
+                # give the states that never defined the variable a copy of the cell (arbitrary content)
+                donor = next(s for s, v in zip(states, vals) if v is not _MISSING and v.cid in s.cells)
+                for s, v in zip(states, vals):
+                    if v is _MISSING:
+                        s.cells.setdefault(proto.cid, donor.cells[proto.cid])
             vals = [v if v is not _MISSING else _arbitrary_like(proto) for v in vals]
         if all(isinstance(v, CellRef) for v in vals):
             key = tuple(v.cid for v in vals)
             if key in cell_pair_memo:
                 return cell_pair_memo[key]
-            seqs = [s.cells[v.cid] for s, v in zip(states, vals)]
+            try:
+                seqs = [s.cells[v.cid] for s, v in zip(states, vals)]
+            except KeyError as e:
+                raise Unmergeable(f"dangling cell reference {e} among {vals!r}")
             acc = seqs[-1]
             for g, sq in zip(reversed(guards[:-1]), reversed(seqs[:-1])):
                 acc = ite(g, sq, acc)
